@@ -48,8 +48,17 @@ func VerifEvents() {
 		subs[i].vars = map[string]interface{}{"c": 10 + i}
 		if verifParam("stitch", 1) == 0 {
 			subs[i].query, subs[i].vars = `subscription { humanChanged { name } }`, nil
-		} else if verifChoice("query"+verifItoa(i), 2) == 1 {
-			subs[i].query, subs[i].vars = `subscription { humanChanged { phone } }`, nil
+		} else {
+			switch verifChoice("query"+verifItoa(i), 4) {
+			case 1:
+				subs[i].query, subs[i].vars = `subscription { humanChanged { phone } }`, nil
+			case 2:
+				// the stitch point may be absent (best is null for h2): nothing to fetch, helpers still go
+				subs[i].query, subs[i].vars = `subscription { humanChanged { name best { phone } } }`, nil
+			case 3:
+				// a list to complete behind three object fields
+				subs[i].query, subs[i].vars = `subscription { humanChanged { meta { section { editors { phone } } } } }`, nil
+			}
 		}
 		n := verifChoice("events"+verifItoa(i), verifParam("maxevents", 2)+1)
 		for e := 0; e < n; e++ {
